@@ -133,7 +133,7 @@ type kvwRun struct {
 
 func (r *kvwRun) argVer(model int) string {
 	if model == 0 {
-		return unknownVersion
+		return someUnknownVersion()
 	}
 	if b, ok := r.vers[model]; ok {
 		return b
@@ -565,7 +565,7 @@ type kvwLog struct {
 }
 
 func (l *kvwLog) verInt(v string) int {
-	if v == "" || v == unknownVersion {
+	if isUnknownVersion(v) {
 		return 0
 	}
 	if n, ok := l.vers[v]; ok {
@@ -593,7 +593,7 @@ func (l *kvwLog) pickVer(r *rand.Rand, key string) string {
 	kn := l.known[key]
 	switch c := r.Intn(20); {
 	case len(kn) == 0 || c == 0:
-		return unknownVersion
+		return someUnknownVersion()
 	case c <= 2:
 		return kn[r.Intn(len(kn))]
 	}
